@@ -1,7 +1,7 @@
 #!/usr/bin/env python3
 """Turns the runner's results.jsonl into mutants/RESULTS.md (one row per mutant, latest result wins)."""
 import json, sys
-src = sys.argv[1] if len(sys.argv) > 1 else "/tmp/fvh-mut/results.jsonl"
+src = sys.argv[1] if len(sys.argv) > 1 else "/verif/mutants/results.jsonl"
 idx = {m["name"]: m for m in json.load(open("/verif/mutants/index.json"))}
 rows = {}
 for l in open(src):
@@ -9,6 +9,23 @@ for l in open(src):
         r = json.loads(l)
     except Exception:
         continue
+    old = rows.get(r["mutant"])
+    if old:
+        # several runs (a full matrix, later re-runs of the expected checks): a check counts as
+        # catching the mutant if it did so in the latest run that included it
+        caught = set(old.get("caught", "").split())
+        missed = set(old.get("missed", "").split())
+        broken = {b.split("(")[0]: b for b in old.get("broken", "").split()}
+        for c in r.get("caught", "").split():
+            caught.add(c); missed.discard(c); broken.pop(c, None)
+        for c in r.get("missed", "").split():
+            missed.add(c); caught.discard(c); broken.pop(c, None)
+        for b in r.get("broken", "").split():
+            k = b.split("(")[0]
+            broken[k] = b; caught.discard(k); missed.discard(k)
+        r = dict(r, caught=" ".join(sorted(caught)), missed=" ".join(sorted(missed)), broken=" ".join(sorted(broken.values())))
+        if r.get("baseline") in ("skipped", None):
+            r["baseline"] = old.get("baseline", "skipped")
     rows[r["mutant"]] = r
 out = ["# Sensitivity mutants: which quick checks catch which deliberate breakage", "",
        "Produced by `tools/run_mutants.sh` (scratch worktree of /repo + scratch copy of /verif) and `tools/mutant_report.py`.",
